@@ -42,6 +42,9 @@ def auto_case(draw):
     n_par = draw(st.one_of(st.integers(1, 20), st.integers(8, 14), st.integers(9, 12)))
     n_state = draw(st.integers(1, 3))
     pool = [n for n in gen.PLAIN_NAMES if n not in ("t",)]
+    if draw(st.integers(0, 9)) > 0:
+        # (names that Fortran cannot tell from the constants E, PI, I are the shape of the listed finding F-02f)
+        pool = [n for n in pool if n.lower() not in ("e", "pi", "i")]
     names = draw(st.lists(st.sampled_from(pool), min_size=n_par + n_state, max_size=n_par + n_state, unique=True))
     states, params = names[:n_state], names[n_state:]
     eqs = []
@@ -66,13 +69,20 @@ def auto_case(draw):
             k += 1
     vars_ = [[x, "state", round(0.2 + 0.13 * i, 3)] for i, x in enumerate(states)] + \
             [[p, "const", round(0.3 + 0.07 * i, 3)] for i, p in enumerate(params)]
+    # one case in four: parameters that only the integral conditions of a boundary value problem use (par_<name> tokens)
+    icond = []
+    if draw(st.integers(0, 3)) == 0:
+        for k in range(draw(st.integers(1, 2))):
+            nm = next(n for n in ("cnd0", "cnd1", "cnd2") if n not in names and n not in [c[1] for c in icond])
+            vars_.append([nm, "const", round(0.91 + 0.03 * k, 3)])
+            icond.append([states[k % n_state], nm])
     vars_ = list(draw(st.permutations(vars_)))
     scen = draw(st.lists(st.sampled_from(SCENARIOS), min_size=1, max_size=3, unique=True))
     fl = st.floats(-1.2, 1.2, allow_nan=False).map(lambda v: round(v, 3))
-    probes = draw(st.lists(st.lists(fl, min_size=n_state + n_par, max_size=n_state + n_par), min_size=2, max_size=2))
+    probes = draw(st.lists(st.lists(fl, min_size=n_state + n_par + 2, max_size=n_state + n_par + 2), min_size=2, max_size=2))
     return {"spec": {"ops": {"op0": {"vars": [list(v) for v in vars_], "eqs": eqs, "out": states[0]}},
                      "ntypes": {"nt0": {"ops": ["op0"], "ov": {}}}, "nodes": [["p", "nt0"]], "edges": [], "etypes": {}},
-            "scenarios": scen, "probes": probes}
+            "scenarios": scen, "probes": probes, "icond": icond}
 
 
 def first_use_order(spec):
@@ -97,7 +107,7 @@ class AutoArm(Arm):
     budget = {"quick": 160, "thorough": 1600}
     min_per_shard = 2
     case_timeout = 300
-    required_labels = ("n_par>=10", "decl_order!=first_use", "multi_scenario")
+    required_labels = ("n_par>=10", "decl_order!=first_use", "multi_scenario", "condition_only_parameters")
 
     def strategy(self, ctx):
         return auto_case()
@@ -136,7 +146,9 @@ class AutoArm(Arm):
                 warnings.simplefilter("ignore")
                 out = circ.get_run_func("vfx", step_size=1e-3, file_name=fname, backend="fortran",
                                         float_precision="float64", auto=True, vectorize=False, solver="scipy",
-                                        auto_constants=tuple(case["scenarios"]), verbose=False, in_place=False)
+                                        auto_constants=tuple(case["scenarios"]), verbose=False, in_place=False,
+                                        **({"integral_constraints": [f"u_{x} - par_{c}" for x, c in case["icond"]]}
+                                           if case.get("icond") else {}))
         except HarnessError:
             raise
         except Exception as e:
@@ -193,8 +205,22 @@ class AutoArm(Arm):
                                         f"that influence the equations: {sorted(needed)})")
             return res
         decl_params = [p for p in decl_params if p in slots]   # parameters that cancel out may be dropped
+        cond_only = {c for _, c in case.get("icond") or []}
+        if cond_only:
+            res.labels.append("condition_only_parameters")
+            if not cond_only <= set(slots):
+                res.violate("parnames-set", f"parameters {sorted(cond_only - set(slots))} of the integral conditions have no slot")
+                return res
         order = [slots[p] for p in decl_params]
-        if order != sorted(order) or len(set(order)) != len(order):
+        if len(set(order)) != len(order):
+            res.violate("slot-order", f"slots {list(zip(decl_params, order))} are not pairwise distinct")
+            return res
+        ordered = decl_params
+        if cond_only and "F-18c" in ctx.active_findings:
+            # listed finding F-18c: parameters that only the conditions use are appended behind the others; the order
+            # of the remaining parameters (and every other relation below) is still checked
+            ordered = [p for p in decl_params if p not in cond_only]
+        if [slots[p] for p in ordered] != sorted(slots[p] for p in ordered):
             res.violate("slot-order", f"slots in declaration order {list(zip(decl_params, order))} are not strictly increasing")
             return res
         if any(11 <= s <= 14 for s in order):
